@@ -523,6 +523,8 @@ def strat(tier):
       kinds = draw(st.lists(st.sampled_from(['feature1', 'feature2', 'cross', 'fan', 'within', 'feature3']), max_size=3, unique=True))
       if wide and 'feature3' not in kinds:
         kinds = kinds[:2] + ['feature3']
+      if 'within' not in kinds and draw(st.integers(0, 4)) == 0:
+        kinds = kinds[:2] + ['within']
       for k in kinds:
         # fill values incl. fractions, which an integer column cannot hold (the masked column is promoted)
         rep = draw(st.sampled_from([None, None, None, 0, 7, 0.5, 2.5]))
@@ -537,7 +539,9 @@ def strat(tier):
         elif k == 'fan':
           slicers.append({'kind': 'fan', 'features': ['v'], 'name': 'fan', 'replace': rep})
         else:
-          allowed = draw(st.lists(st.sampled_from(['a', 'b', 'c', 'zz', 'ab']), min_size=1, max_size=3, unique=True))
+          # value sets of one to three values, mostly values the column holds (and that have proper substrings in it)
+          pool = sorted({c for c in cats1 if c} | {'a', 'zz', 'ab'})
+          allowed = draw(st.lists(st.sampled_from(pool), min_size=1, max_size=draw(st.sampled_from([1, 1, 2, 3])), unique=True))
           slicers.append({'kind': 'within', 'features': ['f1'], 'name': 'within', 'replace': rep, 'allowed': allowed,
                           'form': draw(st.sampled_from(['tuple', 'list'] + (['bare', 'bare'] if len(allowed) == 1 else [])))})
       if any(sl.get('replace') is not None for sl in slicers):
